@@ -23,6 +23,8 @@ import (
 	"math"
 	"sync"
 	"sync/atomic"
+
+	"google.golang.org/grpc/internal/verifhook"
 )
 
 // writeQuota is a soft limit on the amount of data a stream can
@@ -53,10 +55,13 @@ func (w *writeQuota) init(sz int32, done <-chan struct{}) {
 
 func (w *writeQuota) get(sz int32) error {
 	for {
+		verifhook.At("wq.g_load", w)
 		if atomic.LoadInt32(&w.quota) > 0 {
+			verifhook.At("wq.g_add", w)
 			atomic.AddInt32(&w.quota, -sz)
 			return nil
 		}
+		verifhook.At("wq.g_wait", w)
 		select {
 		case <-w.ch:
 			continue
@@ -69,6 +74,7 @@ func (w *writeQuota) get(sz int32) error {
 func (w *writeQuota) realReplenish(n int) {
 	sz := int32(n)
 	newQuota := atomic.AddInt32(&w.quota, sz)
+	verifhook.At("wq.r_send", w)
 	previousQuota := newQuota - sz
 	if previousQuota <= 0 && newQuota > 0 {
 		select {
